@@ -10,6 +10,7 @@ package main
 import (
 	"fmt"
 	"math"
+	"sort"
 
 	"gonum.org/v1/gonum/internal/verif/vlib"
 	"gonum.org/v1/gonum/mat"
@@ -145,21 +146,68 @@ func rocDstCase(t *vlib.T, id []int, lab int, ws wspec) {
 // ---- Histogram count ---------------------------------------------------------------
 
 func histDstCase(t *vlib.T, id []int, ws wspec, divs [][]float64) {
-	x := pick(vals6, id)
+	histDstData(t, pick(vals6, id), cloneF(ws.w), divs)
+}
+
+// histDstData crosses every count state with one data set x, w; x may be nil,
+// zero-length, a single value, constant, or carry all-zero weights.
+func histDstData(t *vlib.T, x, w []float64, divs [][]float64) {
 	n := len(x)
-	w := cloneF(ws.w)
 	other := make([]float64, n) // previous call's data for the reuse state
 	for i := range other {
 		other[i] = -2
 	}
 	nOK := 0
 	for _, d := range divs {
-		if !(x[0] >= d[0] && x[n-1] < d[len(d)-1]) {
+		if n > 0 && !(x[0] >= d[0] && x[n-1] < d[len(d)-1]) {
 			continue
 		}
 		nOK++
 		bins := len(d) - 1
 		ref := stat.Histogram(nil, d, x, w)
+		if len(ref) != bins {
+			t.Failf("Histogram(nil count, dividers=%v) returns %d bins", d, len(ref))
+			continue
+		}
+		// definition: bin-by-bin counting (all bins are zero for empty data or all-zero weights)
+		for j := range ref {
+			want := 0.0
+			exact := true
+			for i := range x {
+				if x[i] >= d[j] && x[i] < d[j+1] {
+					if w == nil {
+						want++
+					} else {
+						want += w[i]
+						if w[i] != math.Trunc(w[i]) {
+							exact = false
+						}
+					}
+				}
+			}
+			if (exact && ref[j] != want) || !near(ref[j], want, float64(n)*eps*math.Abs(want)) {
+				t.Failf("Histogram(nil count, dividers=%v, x=%v) bin %d = %v, counting gives %v", d, x, j, ref[j], want)
+			}
+		}
+		// a reused count still holding non-zero values of an earlier batch
+		{
+			backing, stale := carved(bins, bins+1)
+			for i := range stale {
+				stale[i] = float64(7 + i)
+			}
+			var got []float64
+			msg, pan := catch(func() { got = stat.Histogram(stale, d, x, w) })
+			if pan {
+				t.Failf("Histogram(stale count, dividers=%v, x=%v) panics %q", d, x, msg)
+			} else if len(got) != bins || &got[0] != &stale[0] {
+				t.Failf("Histogram did not return the provided count")
+			} else if i, ok := vlib.Same64(got, ref); !ok {
+				t.Failf("Histogram(count holding stale values, dividers=%v, x=%v) bin %d = %v, with nil count %v", d, x, i, got[i], ref[i])
+			}
+			if !guardsIntact(backing, bins+1) {
+				t.Failf("Histogram wrote outside the capacity of count")
+			}
+		}
 		// exact length holding poison, with spare capacity
 		backing, cnt := carved(bins, bins+2)
 		var got []float64
@@ -177,10 +225,10 @@ func histDstCase(t *vlib.T, id []int, ws wspec, divs [][]float64) {
 		vlib.FillPoison64(ref2)
 		copy(ref2[2:2+bins], ref)
 		if i, ok := vlib.Same64(backing, ref2); !ok {
-			t.Failf("Histogram wrote outside count at offset %d", i-2)
+			t.Failf("Histogram: count or the storage around it is not (poison | nil-count result | poison) at offset %d", i-2)
 		}
 		// reused after a previous call on other data
-		if -2 >= d[0] && -2 < d[len(d)-1] {
+		if n > 0 && -2 >= d[0] && -2 < d[len(d)-1] {
 			prev := stat.Histogram(nil, d, other, w)
 			got = stat.Histogram(prev, d, x, w)
 			if i, ok := vlib.Same64(got, ref); !ok {
@@ -201,9 +249,127 @@ func histDstCase(t *vlib.T, id []int, ws wspec, divs [][]float64) {
 		}
 	}
 	t.Nontrivial()
-	t.Outcome(fmt.Sprintf("hist n=%d inrange>0=%v", n, nOK > 0))
+	t.Outcome(fmt.Sprintf("hist n=%d nil=%v inrange>0=%v", n, x == nil, nOK > 0))
 	if t.Failed() {
 		t.Detail(map[string]any{"x": x, "w": w})
+	}
+}
+
+// degenerateData lists the degenerate data inputs that every destination state is crossed with:
+// empty (nil and zero-length, with nil / zero-length weights), a single value, a constant
+// sample, and non-empty data whose weights are all zero.
+type degData struct {
+	name string
+	x, w []float64
+}
+
+func degenerateData() []degData {
+	zl := func() []float64 { return make([]float64, 0, 4) }
+	return []degData{
+		{"x=nil w=nil", nil, nil},
+		{"x=nil w=empty", nil, zl()},
+		{"x=empty w=nil", zl(), nil},
+		{"x=empty w=empty", zl(), zl()},
+		{"x=empty0cap w=nil", []float64{}, nil},
+		{"single w=nil", []float64{1}, nil},
+		{"single w=.3", []float64{1}, []float64{0.3}},
+		{"single w=0", []float64{1}, []float64{0}},
+		{"const3 w=nil", []float64{1, 1, 1}, nil},
+		{"const3 w=nd", []float64{1, 1, 1}, []float64{0.1, 0.2, 0.7}},
+		{"const3 w=0", []float64{-2, -2, -2}, []float64{0, 0, 0}},
+		{"three w=0", []float64{-2, 0, 1}, []float64{0, 0, 0}},
+	}
+}
+
+// rocDegenerate: every cutoffs state with empty y (documented nil results) and with all-zero weights.
+func rocDegenerate(t *vlib.T, dd degData) {
+	y, w := dd.x, dd.w
+	n := len(y)
+	classes := make([]bool, n)
+	for i := range classes {
+		classes[i] = i%2 == 0
+	}
+	if y == nil {
+		classes = nil
+	}
+	rt, rf_, rth := stat.ROC(nil, y, classes, w)
+	if n == 0 && (rt != nil || rf_ != nil || rth != nil) {
+		t.Failf("ROC of empty y is not nil")
+	}
+	for _, c := range []int{0, 1, n, n + 1, n + 2} {
+		for _, stale := range []bool{false, true} {
+			backing, cut := carved(0, c)
+			if stale {
+				for i := 2; i < 2+c; i++ {
+					backing[i] = float64(40 + i)
+				}
+			}
+			var a, b, th []float64
+			msg, pan := catch(func() { a, b, th = stat.ROC(cut, y, classes, w) })
+			what := fmt.Sprintf("ROC(empty cutoffs cap=%d stale=%v, %s)", c, stale, dd.name)
+			if pan {
+				t.Failf("%s panics %q", what, msg)
+				continue
+			}
+			same3(t, what, a, b, th, rt, rf_, rth)
+			if !guardsIntact(backing, c) {
+				t.Failf("%s wrote outside the capacity of cutoffs", what)
+			}
+		}
+	}
+	for _, set := range [][]float64{{0}, {-2, 1}, {-3, 1, 5}} {
+		et, ef, eth := stat.ROC(cloneF(set), y, classes, w)
+		backing, cut := carved(len(set), len(set)+2)
+		copy(cut, set)
+		before := cloneF(backing)
+		var a, b, th []float64
+		msg, pan := catch(func() { a, b, th = stat.ROC(cut, y, classes, w) })
+		what := fmt.Sprintf("ROC(cutoffs=%v with spare capacity, %s)", set, dd.name)
+		if pan {
+			t.Failf("%s panics %q", what, msg)
+			continue
+		}
+		same3(t, what, a, b, th, et, ef, eth)
+		if i, ok := vlib.Same64(backing, before); !ok {
+			t.Failf("%s modified the caller's storage at %d", what, i-2)
+		}
+	}
+}
+
+// sortDegenerate: nil and zero-length slices in every nil combination, inside guarded storage.
+func sortDegenerate(t *vlib.T, dd degData) {
+	for mode := 0; mode < 4; mode++ {
+		bx, xs := carved(len(dd.x), len(dd.x)+2)
+		copy(xs, dd.x)
+		var x []float64 = xs
+		if dd.x == nil {
+			x = nil
+		}
+		var wa []float64
+		var la []bool
+		bw, ws := carved(len(dd.x), len(dd.x)+2)
+		if mode&1 != 0 {
+			wa = ws
+			for i := range wa {
+				wa[i] = float64(i) + 0.5
+			}
+		}
+		if mode&2 != 0 {
+			la = make([]bool, len(dd.x), len(dd.x)+2)
+		}
+		msg, pan := catch(func() { stat.SortWeightedLabeled(x, la, wa) })
+		if pan {
+			t.Failf("SortWeightedLabeled(%s, mode %d) panics %q", dd.name, mode, msg)
+			continue
+		}
+		if !sort.Float64sAreSorted(x) || !guardsIntact(bx, len(dd.x)+2) || !guardsIntact(bw, len(dd.x)+2) {
+			t.Failf("SortWeightedLabeled(%s, mode %d): not sorted or wrote outside the slices", dd.name, mode)
+		}
+		for i := len(dd.x); i < len(dd.x)+2; i++ { // spare capacity untouched
+			if math.Float64bits(bx[2+i]) != math.Float64bits(vlib.Poison64(2+i)) {
+				t.Failf("SortWeightedLabeled(%s, mode %d) wrote the spare capacity of x", dd.name, mode)
+			}
+		}
 	}
 }
 
@@ -473,6 +639,14 @@ func covDstCase(t *vlib.T, data [][]float64, ws wspec) {
 	}
 }
 
+func colsOf(idx []int, n int) [][]float64 {
+	out := make([][]float64, len(idx))
+	for i, c := range idx {
+		out[i] = ccaCols[c][:n]
+	}
+	return out
+}
+
 // ---- CC destinations ------------------------------------------------------------------------
 
 func ccDstCase(t *vlib.T, xc, yc []int, ws wspec, n int) {
@@ -636,6 +810,79 @@ func mdsDstCase(t *vlib.T, pts [][2]int) {
 }
 
 func genDst(g *vlib.G) {
+	// every destination state crossed with the degenerate data inputs
+	{
+		divs := dividerSets()
+		for _, dd := range degenerateData() {
+			dd := dd
+			gcase(g, "degenerate hist "+dd.name, func(t *vlib.T) { histDstData(t, cloneF(dd.x), cloneF(dd.w), divs) })
+			gcase(g, "degenerate roc "+dd.name, func(t *vlib.T) {
+				rocDegenerate(t, degData{dd.name, cloneF(dd.x), cloneF(dd.w)})
+				t.Nontrivial()
+				t.Outcome("roc degenerate")
+			})
+			gcase(g, "degenerate sort "+dd.name, func(t *vlib.T) {
+				sortDegenerate(t, dd)
+				t.Nontrivial()
+				t.Outcome("sort degenerate")
+			})
+		}
+		// matrices: a single observation, constant columns, all-zero weights, for every dst state of
+		// CovarianceMatrix / CorrelationMatrix / PC.VarsTo / PC.VectorsTo
+		for _, dm := range []struct {
+			name string
+			cols [][]float64
+			w    []float64
+		}{
+			{"1x1", [][]float64{{2}}, nil},
+			{"1x2", [][]float64{{2}, {-1}}, nil},
+			{"1x2 w=.3", [][]float64{{2}, {-1}}, []float64{0.3}},
+			{"3x2 const", [][]float64{{2, 2, 2}, {-1, -1, -1}}, nil},
+			{"3x2 const w=ramp", [][]float64{{2, 2, 2}, {-1, -1, -1}}, []float64{2, 3, 1}},
+			{"3x2 w=0", [][]float64{{0, 2, -1}, {-1, 0, 2}}, []float64{0, 0, 0}},
+			{"3x1 w=0", [][]float64{{0, 2, -1}}, []float64{0, 0, 0}},
+			{"2x3 const", [][]float64{{0, 0}, {2, 2}, {-1, -1}}, nil},
+		} {
+			dm := dm
+			gcase(g, "degenerate cov "+dm.name, func(t *vlib.T) {
+				cols := make([][]float64, len(dm.cols))
+				for i := range cols {
+					cols[i] = cloneF(dm.cols[i])
+				}
+				covDstCase(t, cols, wspec{"deg", cloneF(dm.w)})
+			})
+		}
+		// CC destinations with a constant column / an entirely constant block / all-zero weights
+		for _, dc := range []struct {
+			name   string
+			xb, yb []int
+			w      []float64
+		}{
+			{"x=[0 const] y=[3]", []int{0, 6}, []int{3}, nil},
+			{"x=[const] y=[3]", []int{6}, []int{3}, nil},
+			{"x=[0 1] y=[const]", []int{0, 1}, []int{6}, nil},
+			{"x=[0 1] y=[3] w=0", []int{0, 1}, []int{3}, []float64{0, 0, 0, 0, 0}},
+		} {
+			dc := dc
+			gcase(g, "degenerate cc "+dc.name, func(t *vlib.T) {
+				var probe stat.CC
+				var err error
+				msg, pan := catch(func() {
+					err = probe.CanonicalCorrelations(denseFromCols(colsOf(dc.xb, 5)), denseFromCols(colsOf(dc.yb, 5)), cloneF(dc.w))
+				})
+				if pan {
+					t.Failf("CanonicalCorrelations(%s) panics %q", dc.name, msg)
+					return
+				}
+				if err != nil {
+					t.Nontrivial()
+					t.Outcome("cc degenerate: analysis reports failure")
+					return
+				}
+				ccDstCase(t, dc.xb, dc.yb, wspec{"deg", cloneF(dc.w)}, 5)
+			})
+		}
+	}
 	// ROC: every sorted multiset n=1..5, every label vector, nil and non-dyadic weights
 	for n := 1; n <= 5; n++ {
 		n := n
